@@ -21,7 +21,11 @@
 //
 // Path A runs the steps one by one.  After EVERY step the canonical text (hlib.Canon: Enumerator walks only)
 // of EVERY earlier value is recomputed and compared with the snapshot taken when that value was created
-// (for a rel.Relation also its heading, the names slice in its own order).
+// (for a rel.Relation also its heading, the names slice in its own order), and the value is observed through the OPERATORS
+// a program can apply to it (`v = lit`, `lit = v`, `{v, lit} count`, `v count`, `//str.repr(v)` against an independent
+// value `lit` with the same members, rebuilt at creation): the answers must be those recorded at creation, and an
+// untainted value must equal its `lit` from the start.  After every step the new value is also COMPARED with every earlier
+// one (results discarded): comparisons may fill caches, i.e. they are operations of the history too.
 // Path B evaluates the whole history as ONE nested-let arr.ai program `let v0 = e0; let v1 = e1; … [v0, …, vN]`
 // and compares each element with path A's creation-time snapshot.
 //
@@ -40,6 +44,7 @@ import (
 	"strconv"
 	"strings"
 
+	"github.com/arr-ai/arrai/pkg/fu"
 	"github.com/arr-ai/arrai/rel"
 	"github.com/arr-ai/arrai/syntax"
 	"github.com/arr-ai/wbnf/parser"
@@ -51,6 +56,9 @@ type hist struct {
 	vals  []rel.Value // nil = the step failed
 	snaps []string
 	heads []string // the heading (NamesSlice, in its own order) of a rel.Relation at creation: part of the value
+	lits  []rel.Value // an independent value with the same members, rebuilt member by member at creation
+	probe []string    // the answers of the operator probes at creation
+	taint map[int]bool
 	srcs  []string
 	first string // first stability violation
 }
@@ -253,6 +261,29 @@ func (h *hist) runStep(step string) {
 		h.snaps = append(h.snaps, hlib.Canon(v))
 	}
 	h.heads = append(h.heads, heading(v))
+	var lit rel.Value
+	if v != nil {
+		lit = rebuild(v)
+	}
+	h.lits = append(h.lits, lit)
+	h.probe = append(h.probe, probes(v, lit))
+	// a value must compare equal to an independent value with the same members — from its creation on
+	// (tainted values are known to be in a representation that other properties' defects leave non-canonical)
+	if v != nil && lit != nil && !h.taint[k] && h.first == "" {
+		if want := "eq=true,qe=true,pair=1"; !strings.HasPrefix(h.probe[k], want) {
+			h.first = fmt.Sprintf("probe:v%d@%d(%s)", k, k, h.probe[k])
+		}
+	}
+	// comparisons are operations too (they may fill caches): compare the new value with every earlier one, both ways
+	for j := 0; j < k; j++ {
+		if v != nil && h.vals[j] != nil {
+			func() {
+				defer func() { _ = recover() }()
+				_ = v.Equal(h.vals[j])
+				_ = h.vals[j].Equal(v)
+			}()
+		}
+	}
 	// stability of every earlier value
 	for j := 0; j < k; j++ {
 		if h.vals[j] == nil {
@@ -263,6 +294,9 @@ func (h *hist) runStep(step string) {
 		}
 		if now := heading(h.vals[j]); now != h.heads[j] && h.first == "" {
 			h.first = fmt.Sprintf("changed:v%d@%d(heading was %s now %s)", j, k, h.heads[j], now)
+		}
+		if now := probes(h.vals[j], h.lits[j]); now != h.probe[j] && h.first == "" {
+			h.first = fmt.Sprintf("changed:v%d@%d(probes were %s now %s)", j, k, h.probe[j], now)
 		}
 	}
 }
@@ -276,8 +310,73 @@ func heading(v rel.Value) string {
 	return ""
 }
 
+// rebuild makes an independent value with the same members: numbers as they are, tuples attribute by attribute, sets member
+// by member through rel.NewSet (so a set of char tuples comes back as a String, a set of generic tuples as a Relation, …).
+func rebuild(v rel.Value) (out rel.Value) {
+	defer func() {
+		if recover() != nil {
+			out = nil
+		}
+	}()
+	switch x := v.(type) {
+	case rel.Number:
+		return x
+	case rel.Tuple:
+		var attrs []rel.Attr
+		for e := x.Enumerator(); e.MoveNext(); {
+			n, val := e.Current()
+			r := rebuild(val)
+			if r == nil {
+				return nil
+			}
+			attrs = append(attrs, rel.NewAttr(n, r))
+		}
+		return rel.NewTuple(attrs...)
+	case rel.Set:
+		if hlib.IsFn(v) {
+			return nil
+		}
+		var ms []rel.Value
+		for e := x.Enumerator(); e.MoveNext(); {
+			r := rebuild(e.Current())
+			if r == nil {
+				return nil
+			}
+			ms = append(ms, r)
+		}
+		s, err := rel.NewSet(ms...)
+		if err != nil {
+			return nil
+		}
+		return s
+	}
+	return nil
+}
+
+// probes observes a value through the operators a program can apply to it: `v = lit`, `lit = v`, `{v, lit} count`,
+// `v count`, `//str.repr(v)` (the rel functions behind them).
+func probes(v, lit rel.Value) (out string) {
+	if v == nil || lit == nil {
+		return "-"
+	}
+	defer func() {
+		if p := recover(); p != nil {
+			out = "panic"
+		}
+	}()
+	pair := -1
+	if s, err := rel.NewSet(v, lit); err == nil {
+		pair = s.Count()
+	}
+	count := -1
+	if s, ok := v.(rel.Set); ok {
+		count = s.Count()
+	}
+	return fmt.Sprintf("eq=%v,qe=%v,pair=%d,count=%d,repr=%s", v.Equal(lit), lit.Equal(v), pair, count, fu.Repr(v))
+}
+
 func runHist(p []string) *hist {
-	h := &hist{}
+	h := &hist{taint: taintOf(p[0])}
 	for _, s := range p[1:] {
 		h.runStep(s)
 	}
